@@ -175,7 +175,7 @@ def _subclass_target(sub):
     return {'rows': L([{'k': 1, 'p': P((7, 8))}, {'k': 2, 'p': P(())}, L([{'k': 3}])]), 'tags': F(['x'])}
 
 
-SCALAR_SUBCLASS_TARGETS = 4
+SCALAR_SUBCLASS_TARGETS = 6     # 4 attributed scalar subclasses + 2 re-ordered OrderedDicts
 
 
 def _scalar_subclass_target(i):
@@ -218,8 +218,34 @@ def _bfs_by_star(root):
     return out
 
 
+def run_moved_odict(i):
+    """an OrderedDict re-ordered in place (move_to_end): its natural order is the order of ITS keys() / values(), not the order
+    of first insertion"""
+    import collections
+    import glom
+    od = collections.OrderedDict([('a', {'k': 1}), ('b', {'k': 2}), ('c', {'k': 3})])
+    if i == 0:
+        od.move_to_end('a')
+    else:
+        od.move_to_end('c', last=False)
+    vals = list(od.values())
+    problems = []
+    for spec, t, want in (('*', od, vals), (glom.T.__star__(), od, vals), ('*.k', od, [v['k'] for v in vals]),
+                          ('x.*.k', {'x': od}, [v['k'] for v in vals]), ('**', od, [od] + vals + [v['k'] for v in vals])):
+        for entry in (glom.glom, glom.Glommer().glom):
+            try:
+                got = entry(t, spec)
+            except Exception as e:
+                got = 'raise %s' % type(e).__name__
+            if got != want:
+                problems.append('%r on a re-ordered OrderedDict (keys now %r): %r, natural order gives %r' % (spec, list(od), got, want))
+    return {'problems': problems}
+
+
 def run_scalar_subclass(i):
     import glom
+    if i >= SCALAR_SUBCLASS_TARGETS - 2:
+        return run_moved_odict(i - (SCALAR_SUBCLASS_TARGETS - 2))
     problems = []
     t = _scalar_subclass_target(i)
     want = _bfs_by_star(t)
